@@ -28,6 +28,9 @@ func MakeChanFunction(env *Zlisp, name string,
 	if len(args) == 1 {
 		switch t := args[0].(type) {
 		case *SexpInt:
+			if err := checkMakeSize(name, t.Val); err != nil {
+				return SexpNull, err
+			}
 			size = int(t.Val)
 		default:
 			return SexpNull, errors.New(
